@@ -127,17 +127,18 @@ func checkC08(c *chk.Ctx) {
 		switch cc.Route {
 		case "pq":
 			fld("p", 1, cc.Kind, abs.Ann{})
-			fld("q", 2, cc.Kind, abs.Ann{Query: true})
+			fld("q", 2, cc.Kind, abs.Ann{Query: true, QueryName: "query-q"})
 			fld("rq", 3, cc.Kind, abs.Ann{Query: true, QueryReq: true})
-			msg.Fields = append(msg.Fields, &abs.Field{Name: "rep", Num: 5, Kind: "string", Card: "rep", Rules: abs.NoRules(), Ann: abs.Ann{Query: true}},
+			// rep: a repeated parameter of the case's kind (three elements: element position must not matter)
+			msg.Fields = append(msg.Fields, &abs.Field{Name: "rep", Num: 5, Kind: cc.Kind, Card: "rep", Rules: abs.NoRules(), Ann: abs.Ann{Query: true}},
 				&abs.Field{Name: "oq", Num: 6, Kind: "int32", Card: "opt", Rules: abs.NoRules(), Ann: abs.Ann{Query: true}},
-				&abs.Field{Name: "rrep", Num: 7, Kind: "string", Card: "rep", Rules: abs.NoRules(), Ann: abs.Ann{Query: true, QueryReq: true}},
+				&abs.Field{Name: "rrep", Num: 7, Kind: "string", Card: "rep", Rules: abs.NoRules(), Ann: abs.Ann{Query: true, QueryName: "r_rep", QueryReq: true}},
 				&abs.Field{Name: "ropt", Num: 8, Kind: "int32", Card: "opt", Rules: abs.NoRules(), Ann: abs.Ann{Query: true, QueryReq: true}})
 			sh.fields = append(sh.fields, "rep", "oq", "rrep", "ropt")
 			sh.pvars = []string{"p"}
-			sh.query = []map[string]any{{"field": "q", "name": "q", "required": false}, {"field": "rq", "name": "rq", "required": true},
+			sh.query = []map[string]any{{"field": "q", "name": "query-q", "required": false}, {"field": "rq", "name": "rq", "required": true},
 				{"field": "rep", "name": "rep", "required": false}, {"field": "oq", "name": "oq", "required": false},
-				{"field": "rrep", "name": "rrep", "required": true}, {"field": "ropt", "name": "ropt", "required": true}}
+				{"field": "rrep", "name": "r_rep", "required": true}, {"field": "ropt", "name": "ropt", "required": true}}
 			sh.path = fmt.Sprintf("/s%d/{p}", sh.idx)
 		case "p":
 			fld("p", 1, cc.Kind, abs.Ann{})
@@ -277,8 +278,20 @@ func checkC08(c *chk.Ctx) {
 		set1("rq", cc.Kind, cc.Cls)
 		if fd := fds.ByName("rep"); fd != nil && cc.Cls != "zero" {
 			l := m.Mutable(fd).List()
-			l.Append(protoreflect.ValueOfString("r1"))
-			l.Append(protoreflect.ValueOfString("r 2,x"))
+			texts := []string{}
+			for _, cl := range []string{"ord", cc.Cls, "max", "ord"} {
+				if t, exists := classText(cc.Kind, cl); exists {
+					texts = append(texts, t)
+				}
+			}
+			if cc.Kind == "string" {
+				texts = append(texts, "r 2,x")
+			}
+			for _, t := range texts {
+				if v, err := wireParseScalar(fd, t); err == nil {
+					l.Append(v)
+				}
+			}
 		}
 		if fd := fds.ByName("oq"); fd != nil && cc.Cls != "zero" {
 			m.Set(fd, protoreflect.ValueOfInt32(map[bool]int32{false: 7, true: 0}[cc.Cls == "max"])) // max: explicitly set to 0 (presence counts)
@@ -523,8 +536,9 @@ func checkC08(c *chk.Ctx) {
 			queryVals := []map[string]string{}
 			q, _ := url.ParseQuery(fmt.Sprint(e["rawQuery"]))
 			for _, qd := range p.sh.query {
-				n := fmt.Sprint(qd["name"])
-				vs, ok := q[n]
+				// looked up in the URL under the declared parameter name, reported under the field
+				n := fmt.Sprint(qd["field"])
+				vs, ok := q[fmt.Sprint(qd["name"])]
 				if !ok || len(vs) == 0 {
 					continue
 				}
